@@ -17,7 +17,7 @@ SPEC_ENTRY = {'title': 'Event queues deliver each device event once, in order, a
               ('C19_poll_stocked',
                'Proofs/OwningProofs.v',
                'poll_stocked',
-               'OwningQueue::poll for EVERY device behaviour: nothing pending -> nothing changes; a used id >= SIZE -> WrongToken, nothing changes; otherwise '
+               '(after the repair f6bad98 of OwningQueue::poll) OwningQueue::poll for EVERY device behaviour: nothing pending -> nothing changes; a used id >= SIZE -> WrongToken, nothing changes; otherwise '
                'the completion at the head of the used ring is delivered once, under its own token, with the length the device recorded if it fits the buffer, '
                'the buffer is re-posted under the same token (the assert never fires) and the queue is fully stocked again; a length above BUFFER_SIZE gives '
                'IoError and never a longer slice'),
